@@ -122,18 +122,18 @@ end pool
 
 /-! ### itertools.combinations (lifted from probe P7) -/
 
-theorem combos_perm {β : Type} : ∀ (k : Nat) (l : List β), (combos k l).Perm (List.sublistsLen k l)
+theorem combos_perm_sublistsLen {β : Type} : ∀ (k : Nat) (l : List β), (combos k l).Perm (List.sublistsLen k l)
   | 0, l => by simp [combos]
   | k + 1, [] => by simp [combos]
   | k + 1, a :: l => by
     rw [combos, List.sublistsLen_succ_cons]
-    exact (List.perm_append_comm).trans (List.Perm.append (combos_perm (k + 1) l) ((combos_perm k l).map _))
+    exact (List.perm_append_comm).trans (List.Perm.append (combos_perm_sublistsLen (k + 1) l) ((combos_perm_sublistsLen k l).map _))
 
-theorem combos_nodup {β : Type} {k : Nat} {l : List β} (h : l.Nodup) : (combos k l).Nodup :=
-  (combos_perm k l).nodup_iff.mpr (List.nodup_sublistsLen k h)
+theorem nodup_combos {β : Type} {k : Nat} {l : List β} (h : l.Nodup) : (combos k l).Nodup :=
+  (combos_perm_sublistsLen k l).nodup_iff.mpr (List.nodup_sublistsLen k h)
 
-theorem mem_combos {β : Type} {k : Nat} {l s : List β} : s ∈ combos k l ↔ s.Sublist l ∧ s.length = k :=
-  (combos_perm k l).mem_iff.trans List.mem_sublistsLen
+theorem mem_combos_iff {β : Type} {k : Nat} {l s : List β} : s ∈ combos k l ↔ s.Sublist l ∧ s.length = k :=
+  (combos_perm_sublistsLen k l).mem_iff.trans List.mem_sublistsLen
 
 /-! ### what `set_known_values(full.get_values(ids), ids)` writes -/
 section apply
